@@ -15,9 +15,11 @@ phase its species name, and can be called again.
        transition-state species outside the species list, BEPs, extra phase keywords) are recorded
        as NDJSON and judged line by line by spec/Trace_OrganizePhases.tla.
 """
+import concurrent.futures as cf
 import json
 import os
 import random
+import time
 
 from harness import core
 
@@ -438,20 +440,25 @@ def nontrivial(case):
             and bool(case['rx'] or case['ia']))
 
 
-def _sim_behaviours(ctx, n, seed):
-    rs = core.run_tlc('MC_OrganizePhases', 'MC_OrganizePhases_sim', workers=1, timeout=1500,
-                      extra=['-simulate', 'num=%d' % n, '-depth', '20', '-seed', str(seed)])
-    sims = [p for p in rs.prints() if core.tagged(p, 'BEH')]
-    if not sims:
-        raise core.MachineryError('MC_OrganizePhases_sim produced no behaviours:\n' + rs.out[-2000:])
-    return sims
+NCPU_MODEL = 12
+
+REJECTED = [
+    ('MC_OrganizePhases_pinned_dicts', "the source as found (phase_type popped from the caller's descriptions)"),
+    ('MC_OrganizePhases_pinned_raises', 'the source as found (species omitted / second call on the same descriptions raises)'),
+    ('MC_OrganizePhases_pinned_again', 'the source as found (second call on organized species returns empty phases)'),
+    ('MC_OrganizePhases_nodedup', 'grouping without the duplicate test'),
+    ('MC_OrganizePhases_nofilter', 'grouping without _filter_reactions'),
+    ('MC_OrganizePhases_wide', 'reactions outside the quantifier (two interfaces / gas+bulk only)'),
+]
 
 
-def _expect_rejected(ctx, cfg, what):
-    bad = ctx.model('MC_OrganizePhases', cfg, workers=4, expect_ok=False)
-    if bad.ok or bad.violated is None:
-        raise core.MachineryError('%s should be rejected by the design model:\n%s' % (cfg, bad.out[-2000:]))
-    ctx.notes.append('design model rejects %s: %s violated' % (what, bad.violated))
+def _register(ctx, job, r):
+    """the bookkeeping of Ctx.model for a TLC run made in a thread"""
+    ctx.count('states', r.distinct)
+    ctx.count('transitions', r.states)
+    ctx.coverage.setdefault('models', []).append(
+        {'module': job[0], 'cfg': job[1], 'distinct_states': r.distinct, 'states_generated': r.states,
+         'depth': r.depth, 'ok': r.ok, 'violated': r.violated, 'wall_s': round(r.wall, 1)})
 
 
 def run(ctx):
@@ -466,37 +473,51 @@ def run(ctx):
         'Nasa9), <= 10 reactions incl. TS species outside the list and BEPs, <= 6 interactions.  '
         'Non-trivial = >= 2 phases, a species naming a phase and a reaction or interaction; distinct by '
         'model and call sequence')
+    t0 = time.time()
+    timing = ctx.coverage.setdefault('timing_s', {})
     if ctx.replay_case is not None:
         cases = [ctx.replay_case['case']]
     else:
-        # (D) design model
-        ctx.model('MC_OrganizePhases', ctx.pick('MC_OrganizePhases', 'MC_OrganizePhases_big'))
-        _expect_rejected(ctx, 'MC_OrganizePhases_pinned_dicts',
-                         'the source as found (phase_type popped from the caller\'s descriptions)')
-        _expect_rejected(ctx, 'MC_OrganizePhases_pinned_raises',
-                         'the source as found (second call on the same descriptions / species omitted raises)')
-        _expect_rejected(ctx, 'MC_OrganizePhases_pinned_again',
-                         'the source as found (second call on organized species returns empty phases)')
-        _expect_rejected(ctx, 'MC_OrganizePhases_nodedup', 'grouping without the duplicate test')
-        _expect_rejected(ctx, 'MC_OrganizePhases_nofilter', 'grouping without _filter_reactions')
-        _expect_rejected(ctx, 'MC_OrganizePhases_wide',
-                         'reactions outside the quantifier (two interfaces / gas+bulk only)')
-        # (S->C) behaviours
-        r = core.run_tlc('MC_OrganizePhases', 'MC_OrganizePhases_beh', workers=1, timeout=900)
-        if not r.ok:
-            raise core.MachineryError('MC_OrganizePhases_beh failed:\n' + r.out[-2000:])
-        raws = [p for p in r.prints() if core.tagged(p, 'BEH')]
-        ctx.coverage['tlc_behaviours'] = len(raws)
         rnd = random.Random(ctx.seed)
+        jobs = {'design': ('MC_OrganizePhases', ctx.pick('MC_OrganizePhases', 'MC_OrganizePhases_big'), NCPU_MODEL, ()),
+                'beh': ('MC_OrganizePhases', 'MC_OrganizePhases_beh', 1, ()),
+                'sim': ('MC_OrganizePhases', 'MC_OrganizePhases_sim', 1,
+                        ('-simulate', 'num=%d' % ctx.pick(1200, 12000), '-depth', '20',
+                         '-seed', str(ctx.seed + 11)))}
+        for cfg, _ in REJECTED:
+            jobs[cfg] = ('MC_OrganizePhases', cfg, 2, ())
+        with cf.ThreadPoolExecutor(max_workers=len(jobs)) as ex:
+            futs = {k: ex.submit(core.run_tlc, m, c, None, w, None, 3000, list(x)) for k, (m, c, w, x) in jobs.items()}
+            res = {k: f.result() for k, f in futs.items()}
+        # (D) design model
+        _register(ctx, jobs['design'], res['design'])
+        if not res['design'].ok:
+            raise core.MachineryError('design model %s failed:\n%s' % (jobs['design'][1], res['design'].out[-4000:]))
+        for cfg, what in REJECTED:
+            bad = res[cfg]
+            _register(ctx, jobs[cfg], bad)
+            if bad.ok or bad.violated is None:
+                raise core.MachineryError('%s should be rejected by the design model:\n%s' % (cfg, bad.out[-2000:]))
+            ctx.notes.append('design model rejects %s: %s violated' % (what, bad.violated))
+        # (S->C) behaviours
+        if not res['beh'].ok:
+            raise core.MachineryError('MC_OrganizePhases_beh failed:\n' + res['beh'].out[-2000:])
+        raws = [p for p in res['beh'].prints() if core.tagged(p, 'BEH')]
+        ctx.coverage['tlc_behaviours'] = len(raws)
         if ctx.quick:
             rnd.shuffle(raws)
             raws = raws[:1500]
         cases = [{'raw': p, 'cid': 'b%d' % k, 'src': 'tlc'} for k, p in enumerate(raws)]
-        sims = _sim_behaviours(ctx, ctx.pick(1200, 12000), ctx.seed + 11)
+        sims = [p for p in res['sim'].prints() if core.tagged(p, 'BEH')]
+        if not sims:
+            raise core.MachineryError('MC_OrganizePhases_sim produced no behaviours:\n' + res['sim'].out[-2000:])
         ctx.coverage['tlc_simulated_behaviours'] = len(sims)
         cases += [{'raw': p, 'cid': 's%d' % k, 'src': 'sim'} for k, p in enumerate(sims)]
         cases += [random_case(rnd, 'r%d' % k) for k in range(ctx.pick(1200, 15000))]
+    timing['tlc_models_and_cases'] = round(time.time() - t0, 1)
+    t1 = time.time()
     results = core.pmap(execute, cases)
+    timing['real_code'] = round(time.time() - t1, 1)
     traces = []
     seen = set()
     for tid, (case, events, mism) in enumerate(results):
@@ -513,7 +534,9 @@ def run(ctx):
         traces.append((tid, events))
         if tid % 487 == 0:
             ctx.sample({k: case[k] for k in ('src', 'ph', 'sp', 'rx', 'ia', 'spgiven', 'ops')}, cap=6)
+    t2 = time.time()
     fails, stats = core.validate_traces('Trace_OrganizePhases', 'Trace', traces)
+    timing['trace_validation'] = round(time.time() - t2, 1)
     ctx.count('traces_validated_against_impl', len(traces))
     ctx.coverage['trace_lines'] = stats['lines']
     by_case = {}
